@@ -141,31 +141,37 @@ def fg_id_numpy(  # noqa: PLR0913
 
         p_id_to_fg_id[current_p_id] = next_fg_id
 
-        current_hh_id = hh_id[index]
         current_p_id_einstandspartner = p_id_einstandspartner[index]
-        current_p_id_children = p_id_to_p_ids_children.get(current_p_id, [])
+        p_ids_adults = [current_p_id]
 
         # Assign fg to einstandspartner
         if current_p_id_einstandspartner >= 0:
             p_id_to_fg_id[current_p_id_einstandspartner] = next_fg_id
+            p_ids_adults.append(current_p_id_einstandspartner)
 
-        # Assign fg to children
-        for current_p_id_child in current_p_id_children:
-            child_index = p_id_to_index[current_p_id_child]
-            child_hh_id = hh_id[child_index]
-            child_alter = alter[child_index]
-            child_p_id_children = p_id_to_p_ids_children.get(current_p_id_child, [])
+        # Assign fg to children of the person and of the einstandspartner (the
+        # latter is skipped by the outer loop because it already has a fg_id)
+        for p_id_adult in p_ids_adults:
+            adult_hh_id = hh_id[p_id_to_index[p_id_adult]]
+            for current_p_id_child in p_id_to_p_ids_children.get(p_id_adult, []):
+                child_index = p_id_to_index[current_p_id_child]
+                child_hh_id = hh_id[child_index]
+                child_alter = alter[child_index]
+                child_p_id_children = p_id_to_p_ids_children.get(
+                    current_p_id_child, []
+                )
 
-            if (
-                child_hh_id == current_hh_id
-                # TODO (@MImmesberger): Check correct conditions for grown up children
-                # https://github.com/iza-institute-of-labor-economics/gettsim/pull/509
-                # TODO(@MImmesberger): Remove hard-coded number
-                # https://github.com/iza-institute-of-labor-economics/gettsim/issues/668
-                and child_alter < 25
-                and len(child_p_id_children) == 0
-            ):
-                p_id_to_fg_id[current_p_id_child] = next_fg_id
+                if (
+                    child_hh_id == adult_hh_id
+                    # TODO (@MImmesberger): Check correct conditions for grown up
+                    # children
+                    # https://github.com/iza-institute-of-labor-economics/gettsim/pull/509
+                    # TODO(@MImmesberger): Remove hard-coded number
+                    # https://github.com/iza-institute-of-labor-economics/gettsim/issues/668
+                    and child_alter < 25
+                    and len(child_p_id_children) == 0
+                ):
+                    p_id_to_fg_id[current_p_id_child] = next_fg_id
 
         next_fg_id += 1
 
